@@ -451,7 +451,9 @@ static std::string run_packets(const std::string &s) {   // PacketDecode over th
 	}
 	return "accept";
 }
+static TMCG_OpenPGP_Pubkey *trusted_pub = 0;
 static void setup_pgp() {
+	if (!R::PublicKeyBlockParse(std::string(PGP_PUBKEY), 0, trusted_pub)) trusted_pub = 0;
 	std::string pub = dearmor(PGP_PUBKEY), prv = dearmor(PGP_PRVKEY), sig = dearmor(PGP_SIGNATURE), msg = dearmor(PGP_MESSAGE), inner = unhex(PGP_INNER_HEX);
 	auto f_pub = [](const std::string &s, bool arm) {
 		TMCG_OpenPGP_Pubkey *k = 0; bool ok = arm ? R::PublicKeyBlockParse(s, 0, k) : R::PublicKeyBlockParse(oct(s), 0, k);
@@ -467,7 +469,14 @@ static void setup_pgp() {
 	add("pgp-prvkey-armored", 'a', "\n", 6, 200, [f_prv](const std::string &s) { return f_prv(s, true); }).valid = { PGP_PRVKEY };
 	auto f_sig = [](const std::string &s, bool arm) {
 		TMCG_OpenPGP_Signature *g = 0; bool ok = arm ? R::SignatureParse(s, 0, g) : R::SignatureParse(oct(s), 0, g);
-		if (ok && g) { g->Good(); g->CheckValidity(1600000000, 0); }
+		if (ok && g) {
+			g->Good(); g->CheckValidity(1600000000, 0);
+			if (trusted_pub) {   // the receiving side of signature verification under a trusted key
+				tmcg_openpgp_octets_t data = oct("hello\n--- dash\nFrom me\n");
+				g->VerifyData(trusted_pub->key, data, 0); g->VerifyData(trusted_pub->key, data, 'b', "doc.txt", 1600000000, 0);
+				g->Verify(trusted_pub->key, 0); g->Verify(trusted_pub->key, "/nonexistent-c12-file", 0);
+			}
+		}
 		if (ok && g) delete g;
 		TMCG_OpenPGP_Signatures gs; bool ok2 = arm ? R::SignaturesParse(s, 0, gs) : R::SignaturesParse(oct(s), 0, gs);
 		if (ok2) for (auto x : gs) delete x; return std::string(res(ok || ok2)); };
@@ -528,12 +537,18 @@ static void setup_pgp() {
 // ---- in-process correspondence records for coq/PgpLenModel.v -------------------------------------------------------------------
 static std::string rnd_octets(size_t n) { std::string s; for (size_t i = 0; i < n; i++) s += (char)gen().below(256); return s; }
 static unsigned char edge_octet() { static const unsigned char E[] = { 0, 1, 2, 127, 128, 191, 192, 193, 223, 224, 225, 254, 255 }; return gen().below(3) ? E[gen().below(sizeof E)] : (unsigned char)gen().below(256); }
+static int rec_fd = -1;
+static void announce(const char *kind, const std::string &s) {   // remember the input of the call that is about to be made
+	if (rec_fd < 0) return;
+	std::string line = std::string(kind) + "\n" + s;
+	if (ftruncate(rec_fd, 0) == 0 && pwrite(rec_fd, line.data(), line.size(), 0) < 0) {}
+}
 static void records(bool thorough) {
 	const unsigned N = thorough ? 6000 : 700;
 	for (unsigned i = 0; i < N; i++) {   // PacketLengthDecode
 		std::string s; size_t n = gen().below(8); for (size_t k = 0; k < n; k++) s += (char)edge_octet();
 		bool nf = gen().coin(); unsigned lt = gen().below(6); if (gen().below(10) == 0) lt = 0xff;
-		tmcg_openpgp_octets_t in = oct(s); uint32_t len = 0xdeadbeef; bool part = false;
+		tmcg_openpgp_octets_t in = oct(s); uint32_t len = 0xdeadbeef; bool part = false; announce("plen", s);
 		size_t hl = R::PacketLengthDecode(in, nf, (tmcg_openpgp_byte_t)lt, len, part);
 		std::string o = hl == 0 ? "err" : hl == 42 ? "indet," + hx((unsigned long)len) : "ok," + std::to_string(hl) + "," + hx((unsigned long)len) + "," + (part ? "1" : "0");
 		Rec("plen").b(s).d(nf).u(lt).t(o);
@@ -552,7 +567,7 @@ static void records(bool thorough) {
 		} else if (mode < 6) {
 			size_t n = gen().below(6); for (size_t k = 0; k < n; k++) s += (char)edge_octet(); s += rnd_octets(gen().below(300));
 		} else { unsigned l = gen().below(191); s += (char)l; s += rnd_octets(l + gen().below(4)); if (gen().below(4) == 0 && !s.empty()) s.resize(s.size() - 1); }
-		tmcg_openpgp_octets_t in = oct(s), body;
+		tmcg_openpgp_octets_t in = oct(s), body; announce("pbe/pframe", s);
 		tmcg_openpgp_byte_t r = R::PacketBodyExtract(in, 0, body);
 		Rec("pbe").b(s).t(hx((unsigned long)r) + "," + xb(sto(body)));
 		tmcg_openpgp_octets_t rest = in, cur; tmcg_openpgp_packet_ctx_t ctx; tmcg_openpgp_notations_t nt; tmcg_openpgp_multiple_octets_t es, rf;
@@ -563,7 +578,7 @@ static void records(bool thorough) {
 		std::string s; unsigned bits = gen().below(4) ? gen().below(80) : (unsigned)gen().below(65536); unsigned sel = gen().below(10);
 		if (sel == 0) s = rnd_octets(gen().below(2));
 		else { s += (char)(bits >> 8); s += (char)bits; size_t bl = (bits + 7) / 8; long d = sel < 3 ? -(long)(1 + gen().below(2)) : sel < 5 ? (long)gen().below(3) : 0; if ((long)bl + d < 0) d = 0; if (bl + d > 300) { bl = 300; d = 0; } s += rnd_octets(bl + d); }
-		size_t sum0 = gen().below(65536), sum = sum0; tmcg_openpgp_octets_t in = oct(s); gcry_mpi_t m = gcry_mpi_new(8);
+		size_t sum0 = gen().below(65536), sum = sum0; tmcg_openpgp_octets_t in = oct(s); gcry_mpi_t m = gcry_mpi_new(8); announce("mpi", s);
 		size_t r = R::PacketMPIDecode(in, m, sum);
 		std::string o;
 		if (!r) o = "err," + hx((unsigned long)sum);
@@ -581,7 +596,7 @@ static void records(bool thorough) {
 		else s = rnd_octets(gen().below(3));
 		if (s.size() >= 5 && (unsigned char)s[0] == 255 && (unsigned char)s[1] == 255 && (unsigned char)s[2] == 255 && (unsigned char)s[3] == 255 && (unsigned char)s[4] >= 0xfa) s[4] = (char)0xf0;
 		tmcg_openpgp_octets_t in = oct(s); tmcg_openpgp_packet_ctx_t ctx; memset(&ctx, 0, sizeof ctx);
-		R::MemoryGuardReset();
+		R::MemoryGuardReset(); announce("subhdr", s);
 		tmcg_openpgp_byte_t r = R::SubpacketDecode(in, 0, ctx);
 		std::string o = r == 0 ? "0,0,0" : hx((unsigned long)r) + "," + std::to_string(s.size() - in.size()) + "," + (ctx.critical ? "1" : "0");
 		R::PacketContextRelease(ctx);
@@ -591,6 +606,7 @@ static void records(bool thorough) {
 		static const char AL[] = "ABCDEFGHIJKLMNOPQRSTUVWXYZabcdefghijklmnopqrstuvwxyz0123456789+/";
 		std::string s; size_t n = gen().below(40);
 		for (size_t k = 0; k < n; k++) { unsigned q = gen().below(20); s += q == 0 ? '=' : q == 1 ? '\n' : q == 2 ? (char)gen().below(256) : q == 3 ? '\0' : AL[gen().below(64)]; }
+		announce("r64", s);
 		tmcg_openpgp_octets_t o; R::Radix64Decode(s, o);
 		Rec("r64").b(s).t(xb(sto(o)));
 	}
@@ -667,7 +683,25 @@ int main(int argc, char **argv) {
 		}
 		printf("STAT vg-cases=%zu\n", n); return 0;
 	}
-	if (batch == 0 && !norec) records(A.thorough());
+	if (batch == 0 && !norec) {   // in-process decoder records, in a child: a crash there is a finding with the announced input
+		std::string cur = errdir + "/c12-rec-current-" + std::to_string(getpid()), ef = errdir + "/c12-rec-stderr-" + std::to_string(getpid());
+		fflush(stdout);
+		pid_t rp = fork();
+		if (rp == 0) {
+			rec_fd = open(cur.c_str(), O_RDWR | O_CREAT | O_TRUNC, 0644);
+			int efd = open(ef.c_str(), O_WRONLY | O_CREAT | O_TRUNC, 0644); if (efd >= 0) { dup2(efd, 2); close(efd); }
+			records(A.thorough()); fflush(stdout); _exit(0);
+		}
+		int st = 0; waitpid(rp, &st, 0);
+		if (!(WIFEXITED(st) && WEXITSTATUS(st) == 0)) {
+			std::ifstream f(cur.c_str(), std::ios::binary); std::string all((std::istreambuf_iterator<char>(f)), std::istreambuf_iterator<char>());
+			size_t nl = all.find('\n'); std::string kind = nl == all.npos ? "?" : all.substr(0, nl), in = nl == all.npos ? "" : all.substr(nl + 1);
+			std::string fn = errdir + "/c12-fail-decoder-" + std::to_string(A.seed) + ".bin"; { std::ofstream o(fn.c_str(), std::ios::binary); o.write(in.data(), in.size()); }
+			std::ifstream e(ef.c_str()); std::string rep((std::istreambuf_iterator<char>(e)), std::istreambuf_iterator<char>()); for (char &ch : rep) if (ch == '\n' || ch == '\r') ch = '\x1f';
+			printf("\nPROPFAIL decoder-records status=%s mut=direct-call:%s case=0 saved=%s input=%s report=%s\n", status_text(st).c_str(), kind.c_str(), fn.c_str(), xb(in.substr(0, 1200)).c_str(), rep.substr(0, 6000).c_str());
+		}
+		unlink(cur.c_str()); unlink(ef.c_str());
+	}
 	// ---- case list (identical in every batch process; batch i runs the cases with index % nbatch == i) ----
 	const bool th = A.thorough();
 	std::vector<Case> cases; std::vector<std::string> validkeys;
@@ -677,7 +711,7 @@ int main(int argc, char **argv) {
 		SplitMix64 g(A.seed * 1000003ULL + k * 7919ULL + 5);
 		for (size_t v = 0; v < t.valid.size(); v++) cases.push_back({ k, t.valid[v], "valid" + std::to_string(v), VSEED });
 		for (auto &m : t.pinned) cases.push_back({ k, m.s, "pinned:" + m.d, VSEED });
-		size_t budget = (th ? 1500 : 160) * t.weight;
+		size_t budget = (th ? 800 : 160) * t.weight;
 		for (size_t v = 0; v < t.valid.size(); v++) {
 			std::vector<Mut> ms;
 			if (t.fmt == 'p') pgp_mutations(t.valid[v], g, th ? 400 : 60, th ? 300 : 40, ms);
